@@ -91,7 +91,15 @@ RULE = ("closed/update cases: N in 2..7 nodes, K in 1..3, u entries k/8 (k<=16, 
         "the first eight magnitude cases of a run are pinned (65537 nodes with D = N; N 1015..1045 with D = N; 4097 hyperedges incl. one of "
         "size N with a fit; every affinity below 1e-8 and not diagonal; u 1e-90 with w 1e-45; u 1e90 with w 1e45; a fit with sizes beyond 1000; "
         "a fit with w supplied at 1e30); non-trivial = (magnitude) N >= 70 or a scale of at least 1e8 "
-        "or at most 1e-8")
+        "or at most 1e-8; seed cases (extension round): constructor arguments (K, assortative passed or left out; u, w supplied or "
+        "not, entries k/8) x priors (0.0, a power of two, an array of powers of two; w_prior symmetric) x raw draws of a stub generator "
+        "(multiples of 1/16 in (0, 2], random() handed out as they are, exponential(scale) as scale * draw) x N in 3..5, K in 1..3, 1..5 "
+        "hyperedges x max_hye_size None / N / largest size x n_iter 1..3 x tolerance not passed / None / 0.0 / 1e6 x "
+        "check_convergence_every not passed / 1 / 2; every third case is malformed or raising, the classes in turn: negative w, "
+        "asymmetric w, non-diagonal w with assortative=True, negative u, u and w with different K, assortative not inferable, K not "
+        "inferable, max_hye_size too small, check_convergence_every=0, w with a zero upper and non-zero lower triangle; the constructor's "
+        "verdict, K, assortative, the arrays built by _init_w / _init_u from the raw draws, the whole fit (exact model from the raw draws) "
+        "and log_likelihood are compared with the model; non-trivial = (seed) accepted, K >= 2, something inferred, or a rejection")
 ASSUMPTIONS = [
     "hyperedges have size >= 2 (size 1 has Poisson parameter 0 and makes the updates divide by zero): excluded from the generator",
     "N >= 3 for the per-node expected degree (the closed form divides by N-2); D <= N",
@@ -113,6 +121,8 @@ ASSUMPTIONS = [
     "log space within 1e-9 max(1, |value|)",
 ]
 TRUSTED = [
+    "seed stream: numpy's Generator.exponential(scale) is scale times a standard exponential variate and Generator.random(shape) is "
+    "non-negative (the stub generator hands out recorded draws in exactly this way)",
     "binary64 evaluation of the float paths is compared with the exact rational model within 1e-9 (relative or absolute)",
     "numpy object-array arithmetic (@, *, +, -, /, sum, matmul, outer) applies the Fraction operators entrywise",
     "math.log / np.log for the likelihood oracle",
@@ -591,6 +601,21 @@ def compare(ctx, drv, case, lines, expect):
                     p = a.split("|")
                     ok = (len(p) == 5 and int(p[0]) == Dm and mat_close(dec_mat(p[1]), uu, 1e-8) and mat_close(dec_mat(p[2]), ww, 1e-8)
                           and p[3] == str(it) and p[4] == str(int(reached)))
+            elif kind == "toll12":
+                ok = a not in ("nonfinite", "badprior") and mat_close(dec_mat(a), val, 1e-12)
+            elif kind == "fitseed":
+                Dm, uu, ww, it, reached = val
+                p = a.split("|")
+                ok = (len(p) == 6 and p[0] == "ok" and int(p[1]) == Dm and mat_close(dec_mat(p[2]), uu, 1e-8)
+                      and mat_close(dec_mat(p[3]), ww, 1e-8) and p[4] == str(it) and p[5] == str(int(reached)))
+            elif kind == "llparts":
+                got_ll, A = val
+                first, lams = a.split("|")
+                lams = [float(x) for x in hgxv.dec_list(lams)]
+                if all(x > 0 for x in lams):
+                    ref = -float(hgxv.dec_num(first)) + sum(wt * math.log(x) for wt, x in zip(A, lams))
+                    ok = got_ll[0] == "ok" and close(got_ll[1], ref)
+                    val = got_ll
             elif kind in ("ofit", "ostate"):
                 # the Lean object after a call of fit / at the end of a session against the implementation's attributes
                 returned, sn = val if kind == "ofit" else (None, val)
@@ -2991,6 +3016,330 @@ def gen_mag(rng, force=None):
             "via_hypergraph": force.get("via_hypergraph", rng.random() < 0.6)}
 
 
+
+# -------------------------------------------------------------------------------------------------
+# stream 6 (extension round): constructor -> initial draws -> guarded fit, from the RAW draws of the generator
+
+CTOR_ERRS = [("cannot be inferred since self.w is None", "noAssortative"), ("Number of communities K cannot be inferred", "noK"),
+             ("contains negative entries", None), ("is not symmetric", "wNotSymmetric"), ("is not diagonal", "wNotDiagonal"),
+             ("number of communities of u and w are different", "kMismatch")]
+
+
+class StubRng:
+    """stands in for the seeded numpy Generator of ONE model object: hands out recorded raw draws (multiples of 1/16 in
+    (0, 2]) - `random(shape)` as they are, `exponential(scale, size)` as `scale * g` (NumPy's definition of the scaled
+    exponential variate) - and keeps them in the order of the calls"""
+
+    def __init__(self, gseed):
+        import random as _r
+        self.r = _r.Random(gseed)
+        self.calls = []
+
+    def _raw(self, shape):
+        import numpy as np
+        shape = tuple(int(x) for x in (shape if isinstance(shape, (tuple, list)) else (shape,)))
+        n = 1
+        for x in shape:
+            n *= x
+        g = np.array([self.r.randint(1, 32) / 16 for _ in range(n)], dtype=float).reshape(shape)
+        return g
+
+    def random(self, size=None):
+        g = self._raw(size)
+        self.calls.append(("random", g.copy()))
+        return g
+
+    def exponential(self, scale=1.0, size=None):
+        import numpy as np
+        sc = np.asarray(scale, dtype=float)
+        g = self._raw(sc.shape if size is None else size)
+        self.calls.append(("exponential", g.copy()))
+        return sc * g
+
+
+def enc_prior(p):
+    if isinstance(p, (int, float)):
+        return "s" + hgxv.enc_num(Fraction(p))
+    return "a" + enc_mat(p)
+
+
+def enc_raw(g):
+    """raw draws on the wire: a matrix as it is, a vector as one row, nothing as the empty array"""
+    if g is None:
+        return "-"
+    rows = g.tolist() if g.ndim == 2 else [g.tolist()]
+    return enc_mat(rows)
+
+
+def seed_model(case, gseed=None):
+    """the real constructor on fresh float arrays; ('ok', model, (u, u_copy, w, w_copy)) or ('err', kind)"""
+    import numpy as np
+    from hypergraphx.communities.hy_mmsbm.model import HyMMSBM
+    u = None if case["u"] is None else np.array(case["u"], dtype=float)
+    w = None if case["w"] is None else np.array(case["w"], dtype=float)
+    kw = {}
+    if case["K_arg"] is not None:
+        kw["K"] = case["K_arg"]
+    if case["ass_arg"] is not None:
+        kw["assortative"] = case["ass_arg"]
+    try:
+        with warnings.catch_warnings():
+            warnings.simplefilter("ignore")
+            m = HyMMSBM(u=u, w=w, max_hye_size=case["max_hye_size"], u_prior=conv_prior(case["u_prior"]),
+                        w_prior=conv_prior(case["w_prior"]), seed=7, **kw)
+    except ValueError as e:
+        msg = str(e)
+        for key, kind in CTOR_ERRS:
+            if key in msg:
+                if kind is None:
+                    kind = "wNegative" if "adjacency" in msg else "uNegative"
+                return ("err", kind)
+        return ("err", "other: " + msg[:60])
+    if gseed is not None:
+        m._rng = StubRng(gseed)
+    return ("ok", m, (u, None if u is None else u.copy(), w, None if w is None else w.copy()))
+
+
+def compare_seed(ctx, drv, case, lines, expect):
+    """model comparison of the seed stream; after two differences of this stream the model is no longer consulted in it (its
+    oracles keep running), so that a change which shows here only as a correspondence difference does not use up the run's five
+    reports before another stream finds the input on which the property fails"""
+    if ctx.extra.get("seed_model_differences", 0) >= 2:
+        ctx.count("seed_model_comparisons_skipped_after_two_differences")
+        return
+    before = len(ctx.disagreements)
+    compare(ctx, drv, case, lines, expect)
+    if len(ctx.disagreements) > before:
+        ctx.extra["seed_model_differences"] = ctx.extra.get("seed_model_differences", 0) + 1
+
+
+def check_seed(ctx, drv, case):
+    import numpy as np
+    N, edges, weights = case["N"], [tuple(e) for e in case["edges"]], case["weights"]
+    key = repr(sorted((k, repr(v)) for k, v in case.items()))
+    lines, expect = [], []
+    got = guarded(lambda: seed_model(case, case["gseed"]))
+    if got[0] == "exc":
+        ctx.case(key, False, sample=case)
+        ctx.violation(case, f"the constructor failed with {got[1]}")
+        return
+    res = got[1]
+    ctor_line = "ctor %d %s %s %s" % (-1 if case["K_arg"] is None else case["K_arg"],
+                                      "none" if case["u"] is None else enc_mat(case["u"]),
+                                      "none" if case["w"] is None else enc_mat(case["w"]),
+                                      "none" if case["ass_arg"] is None else str(int(case["ass_arg"])))
+    lines.append(ctor_line)
+    if res[0] == "err":
+        ctx.count("seed_constructor_rejects_" + res[1].split(":")[0])
+        expect.append(("raw", "err|" + res[1]))
+        ctx.case(key, True, sample=case)
+        # the property's hypotheses: a rejected input must really break one of the documented conditions
+        w, u = case["w"], case["u"]
+        Kw = 0 if w is None else len(w)
+        bad = ((case["ass_arg"] is None and w is None) or (case["K_arg"] is None and w is None and u is None)
+               or (w is not None and any(x < 0 for r in w for x in r))
+               or (w is not None and any(w[a][b] != w[b][a] for a in range(Kw) for b in range(Kw)))
+               or (w is not None and case["ass_arg"] is True and any(w[a][b] != 0 for a in range(Kw) for b in range(Kw) if a != b))
+               or (u is not None and any(x < 0 for r in u for x in r))
+               or (u is not None and w is not None and len(u[0]) != Kw))
+        if not bad:
+            ctx.violation(case, f"the constructor rejects ({res[1]}) non-negative memberships / a symmetric non-negative affinity "
+                                "that satisfy every documented condition")
+        compare_seed(ctx, drv, case, lines, expect)
+        return
+    m, (u_sup, u_copy, w_sup, w_copy) = res[1], res[2]
+    K, ass = int(m.K), bool(m.assortative)
+    expect.append(("raw", "ok|%d|%d" % (K, int(ass))))
+    ctx.count("seed_constructed")
+    # --- the initial draws, on a twin object with the same raw draws --------------------------------
+    twin = seed_model(case, case["gseed"])[1]
+    gw = gu = None
+    init_ok = True
+    if w_sup is None:
+        r = guarded(lambda: twin._init_w())
+        if r[0] == "exc":
+            init_ok = False
+            ctx.violation(case, f"_init_w failed with {r[1]}")
+        else:
+            gw = twin._rng.calls[-1][1]
+            w0 = np.asarray(twin.w, dtype=float)
+            ctx.count("seed_init_w_" + ("uniform" if prior_is_zero(case["w_prior"]) else "exponential") + ("_assortative" if ass else "_full"))
+            lines.append("initw %d %d %s %s" % (K, int(ass), enc_prior(case["w_prior"]), enc_raw(gw)))
+            expect.append(("toll12", w0.tolist()))
+            if w0.shape != (K, K) or not np.all(np.isfinite(w0)) or np.any(w0 < 0) or not np.array_equal(w0, w0.T) \
+                    or (ass and np.any(w0 - np.diag(np.diag(w0)) != 0)):
+                ctx.violation(case, f"the initial affinity drawn by _init_w is not a finite non-negative symmetric"
+                                    f"{' diagonal' if ass else ''} {K}x{K} array: {w0.tolist()}")
+    if u_sup is None and init_ok:
+        ncalls = len(twin._rng.calls)
+        r = guarded(lambda: twin._init_u(N))
+        if r[0] == "exc":
+            init_ok = False
+            ctx.violation(case, f"_init_u failed with {r[1]}")
+        else:
+            gu = twin._rng.calls[ncalls][1]
+            u0 = np.asarray(twin.u, dtype=float)
+            ctx.count("seed_init_u_" + ("uniform" if prior_is_zero(case["u_prior"]) else "exponential"))
+            lines.append("initu %d %d %s %s" % (N, K, enc_prior(case["u_prior"]), enc_raw(gu)))
+            expect.append(("toll12", u0.tolist()))
+            if u0.shape != (N, K) or not np.all(np.isfinite(u0)) or np.any(u0 < 0):
+                ctx.violation(case, f"the initial memberships drawn by _init_u are not a finite non-negative {N}x{K} array")
+    if not init_ok:
+        ctx.case(key, True, sample=case)
+        compare_seed(ctx, drv, case, lines, expect)
+        return
+    # --- the whole fit from the same raw draws --------------------------------------------------------
+    h = build_hypergraph(N, edges, weights, None)
+    fkw = {}
+    if case["tolerance"] != "default":
+        fkw["tolerance"] = case["tolerance"]
+    if case["every"] != "default":
+        fkw["check_convergence_every"] = case["every"]
+    r = guarded(lambda: m.fit(h, n_iter=case["n"], **fkw))
+    Dmax = max(len(e) for e in edges)
+    tol, ev = (None if case["tolerance"] == "default" else case["tolerance"]), (10 if case["every"] == "default" else case["every"])
+    too_small = case["max_hye_size"] is not None and case["max_hye_size"] < Dmax
+    must_raise = too_small or (tol is not None and ev == 0)
+    Dm = case["max_hye_size"] if case["max_hye_size"] is not None else Dmax
+    sqrtC = Fraction(math.sqrt(float(sum(Fraction(2, d * (d - 1)) for d in range(2, Dm + 1))))) if Dm >= 2 else Fraction(1)
+    fit_line = "fitseed %d %d %s %s %s %d %s %s %s %s %s %d %s %d" % (
+        N, -1 if case["K_arg"] is None else case["K_arg"], "none" if case["u"] is None else enc_mat(case["u"]),
+        "none" if case["w"] is None else enc_mat(case["w"]), "none" if case["ass_arg"] is None else str(int(case["ass_arg"])),
+        -1 if case["max_hye_size"] is None else case["max_hye_size"], enc_prior(case["u_prior"]), enc_prior(case["w_prior"]),
+        enc_raw(gw), enc_raw(gu), hgxv.enc_num(sqrtC), case["n"], "none" if tol is None else hgxv.enc_num(Fraction(tol)), ev)
+    lines.append("data %s %s" % (hgxv.enc_lists(edges), hgxv.enc_list([Fraction(1 if weights is None else x) for x in (weights or [1] * len(edges))])))
+    expect.append(("ok", None))
+    nontrivial = K >= 2 and (u_sup is None or w_sup is None)
+    if r[0] == "exc":
+        if must_raise and r[1].split(":")[0] in ("ValueError", "ZeroDivisionError"):
+            ctx.count("seed_fit_raises_as_documented")
+            lines.append(fit_line)
+            expect.append(("raw", "rej"))
+        else:
+            ctx.violation(case, f"fit failed with {r[1]}")
+        ctx.case(key, nontrivial, sample=case)
+        compare_seed(ctx, drv, case, lines, expect)
+        return
+    if must_raise:
+        ctx.violation(case, "fit returned although " + ("max_hye_size is smaller than the largest hyperedge" if too_small
+                                                        else "check_convergence_every = 0 with a tolerance"))
+        ctx.case(key, nontrivial, sample=case)
+        return
+    uu, ww = np.asarray(m.u, dtype=float), np.asarray(m.w, dtype=float)
+    finite = bool(np.all(np.isfinite(uu)) and np.all(np.isfinite(ww)))
+    # the clauses of the property on the returned object
+    scale = max(1.0, float(np.max(np.abs(uu))) if finite else 1.0, float(np.max(np.abs(ww))) if finite else 1.0)
+    if u_sup is not None and not (np.array_equal(np.asarray(m.u), u_copy) and np.array_equal(u_sup, u_copy)):
+        ctx.violation(case, "fit changed the supplied memberships")
+    if w_sup is not None and not (np.array_equal(np.asarray(m.w), w_copy) and np.array_equal(w_sup, w_copy)):
+        ctx.violation(case, "fit changed the supplied affinity")
+    if finite:
+        if np.any(uu < -1e-9 * scale) or np.any(ww < -1e-9 * scale):
+            ctx.violation(case, "a parameter returned by fit is negative")
+        if not np.allclose(ww, ww.T, rtol=1e-9, atol=1e-12 * scale):
+            ctx.violation(case, f"w returned by fit is not symmetric: {ww.tolist()}")
+        if ass and np.any(ww - np.diag(np.diag(ww)) != 0):
+            ctx.violation(case, f"assortative model, but w returned by fit is not diagonal: {ww.tolist()}")
+        if m.max_hye_size != Dm:
+            ctx.violation(case, f"max_hye_size after fit is {m.max_hye_size}, expected {Dm}")
+    exact_ok = case["n"] <= (2 if (u_sup is None and w_sup is None) else 3) and (tol is None or tol == 0.0 or tol >= 1e5)
+    if exact_ok:
+        lines.append(fit_line)
+        if finite:
+            ctx.count("seed_whole_fits_replayed_by_the_model")
+            expect.append(("fitseed", (Dm, uu.tolist(), ww.tolist(), m.training_iter, bool(m.tolerance_reached))))
+        else:
+            ctx.count("seed_nonfinite_fits")
+            expect.append(("raw", "nonfinite"))
+    elif not finite:
+        ctx.count("seed_nonfinite_fits")
+    # log_likelihood of the fitted object = - bf_and_sum + sum_e A_e log(lambda_e), ingredients from the model
+    if finite:
+        ll = guarded(lambda: float(m.log_likelihood(h)))
+        lines += ["setu " + enc_mat(uu.tolist()), "setw " + enc_mat(ww.tolist()), "llparts"]
+        expect += [("ok", None), ("ok", None), ("llparts", (ll, [float(1 if weights is None else x) for x in (weights or [1] * len(edges))]))]
+    ctx.case(key, nontrivial, sample=case)
+    compare_seed(ctx, drv, case, lines, expect)
+
+
+def gen_seed(rng):
+    # every third case is malformed / raising, the classes taken in turn (a rare class must not depend on the seed)
+    gen_seed.count = getattr(gen_seed, "count", 0) + 1
+    kinds = ["wneg", "wasym", "wnotdiag", "uneg", "kmismatch", "noass", "noK", "small", "every0", "wasym_low"]
+    kind = kinds[(gen_seed.count // 3 - 1) % len(kinds)] if gen_seed.count % 3 == 0 else None
+    N = rng.choice([3, 3, 4, 4, 5])
+    K = rng.randint(2, 3) if kind in ("wasym", "wnotdiag", "wasym_low") else rng.randint(1, 3)
+    D = rng.randint(2, N)
+    edges, weights = gen_edges(rng, N, D, nmax=5)
+    which = rng.choice(["none", "none", "u", "u", "w", "both"])
+    ass = rng.random() < 0.5
+    u = [[float(x) for x in r] for r in gen_u(rng, N, K)] if which in ("u", "both") else None
+    if u is not None:
+        for r in u:
+            r[0] = r[0] or 0.125
+    w = [[float(x) for x in r] for r in gen_w(rng, K, ass)] if which in ("w", "both") else None
+    K_arg = K if (rng.random() < 0.6 or which == "none") else None
+    ass_arg = ass if (rng.random() < 0.6 or w is None) else None
+    pw = [0.25, 0.5, 1.0, 2.0, 4.0]
+
+    def prior(rows, cols, sym):
+        r = rng.random()
+        if r < 0.4:
+            return 0.0
+        if r < 0.7:
+            return rng.choice(pw)
+        M = [[rng.choice(pw) for _ in range(cols)] for _ in range(rows)]
+        if sym:
+            for a in range(rows):
+                for b in range(a):
+                    M[a][b] = M[b][a]
+        return M
+    case = {"kind": "seed", "N": N, "edges": edges, "weights": weights, "u": u, "w": w, "K_arg": K_arg, "ass_arg": ass_arg,
+            "u_prior": prior(N, K, False), "w_prior": prior(K, K, True), "gseed": rng.randrange(10 ** 9),
+            "max_hye_size": rng.choice([None, None, N, max(len(e) for e in edges)]),
+            "n": rng.choice([1, 2, 2, 3]), "tolerance": rng.choice(["default", "default", None, 0.0, 1e6]),
+            "every": rng.choice(["default", 1, 1, 2])}
+    if kind is not None:
+        if kind in ("wneg", "wasym", "wnotdiag", "wasym_low"):
+            w2 = [[float(x) for x in r] for r in gen_w(rng, K, False)]
+            a, b = (0, 0) if K == 1 else sorted(rng.sample(range(K), 2))
+            if kind == "wneg" and K == 1:
+                w2[0][0] = -0.5
+            elif kind == "wneg":
+                w2[a][b] = w2[b][a] = -0.125
+                if rng.random() < 0.5:
+                    w2[a][a] = -0.5
+            elif kind == "wasym":
+                w2[a][b] = w2[b][a] + 0.125
+            elif kind == "wasym_low":
+                w2[a][b] = 0.0
+                w2[b][a] = 0.25              # upper triangle zero, lower not: "diagonal" by np.triu, not symmetric
+                for x in range(K):
+                    for y in range(x + 1, K):
+                        w2[x][y] = 0.0
+                case["ass_arg"] = rng.choice([None, True])
+            else:
+                w2[a][b] = w2[b][a] = 0.375
+                case["ass_arg"] = True
+            case["w"] = w2
+        elif kind == "uneg":
+            u2 = [[float(x) for x in r] for r in gen_u(rng, N, K)]
+            u2[rng.randrange(N)][rng.randrange(K)] = -0.25
+            case["u"] = u2
+        elif kind == "kmismatch":
+            case["u"] = [[float(x) for x in r] for r in gen_u(rng, N, K + 1)]
+            case["w"] = [[float(x) for x in r] for r in gen_w(rng, K, ass)]
+            case["ass_arg"] = ass if rng.random() < 0.5 else None
+        elif kind == "noass":
+            case["w"], case["ass_arg"] = None, None
+        elif kind == "noK":
+            case["u"], case["w"], case["K_arg"], case["ass_arg"] = None, None, None, ass
+        elif kind == "small":
+            case["max_hye_size"] = max(len(e) for e in edges) - 1
+        elif kind == "every0":
+            case["every"], case["tolerance"] = 0, rng.choice([0.0, 0.5, None])
+    return case
+
 # -------------------------------------------------------------------------------------------------
 
 def safely(ctx, check, drv, case):
@@ -3010,8 +3359,14 @@ def run(ctx):
     replay_known(ctx, drv)
     n_closed, n_update, n_fit, n_session = ctx.scale(60, 2600), ctx.scale(80, 4200), ctx.scale(45, 1600), ctx.scale(32, 700)
     n_mag = ctx.scale(36, 600)
+    n_seed = ctx.scale(60, 900)
+    gen_seed.count = 0
+    # the seed stream draws from a generator of its own (derived from VERIF_SEED), so that the cases of the older streams - and with
+    # them what a given seed finds first - are the same as before the stream was added
+    import random as _random
+    seed_rng = _random.Random(ctx.seed * 7919 + 15)
     streams = [(gen_closed, check_closed, n_closed), (gen_update, check_update, n_update), (gen_fit, check_fit, n_fit),
-               (gen_session, check_session, n_session), (gen_mag, check_mag, n_mag)]
+               (gen_session, check_session, n_session), (gen_mag, check_mag, n_mag), (gen_seed, check_seed, n_seed)]
     # interleave so that a short time budget still covers the three streams
     todo = []
     for g, c, n in streams:
@@ -3019,7 +3374,7 @@ def run(ctx):
     todo.sort(key=lambda t: t[0])
     forced = list(MAG_FORCED)
     for _, g, c in todo:
-        case = g(ctx.rng, force=forced.pop(0)) if g is gen_mag and forced else g(ctx.rng)
+        case = g(ctx.rng, force=forced.pop(0)) if g is gen_mag and forced else g(seed_rng if g is gen_seed else ctx.rng)
         t_case = time.time()
         safely(ctx, c, drv, case)
         spent = ctx.extra.setdefault("seconds_per_stream", {})
@@ -3046,5 +3401,7 @@ def replay(ctx, case):
         safely(ctx, check_session, drv, case)
     elif kind == "mag":
         safely(ctx, check_mag, drv, case)
+    elif kind == "seed":
+        safely(ctx, check_seed, drv, case)
     else:
         raise ValueError("unknown case kind")
